@@ -13,7 +13,13 @@
  *   ti|tu <vlen> <base> <hd> text...            _mpt_convert_int / _mpt_convert_uint
  *   tw <name> <base> <lo:hi|-> <hd> text...     mpt_cint8 ... mpt_culong
  *   tn|ts <fmt> <hd> text...                    mpt_convert_number / mpt_convert_string
- *   tf <f|d|e> <lo:hi|-> <hd> text...           mpt_cfloat / mpt_cdouble / mpt_cldouble
+ *   tf <f|d|e> <xLO:xHI|-> <hd> text...         mpt_cfloat / mpt_cdouble / mpt_cldouble; the optional range as two bit patterns of the type
+ *   I <src> <dst> <hd> <mode> v...              mpt_iterator_consume on an iterator that (mode & 1) offers no value, (mode & 2) fails
+ *                                               to advance (BadOperation); dst 0 = skip the value; token = the C token + @<advance calls>
+ *   W <source kind> <hd> dst...                 mpt_value_convert on a NON-number source (string pointer, vectors, unknown codes,
+ *                                               stub convertable / metatype pointer / metatype reference) for every target code listed
+ *   T code...                                   mpt_type_traits(code): size and whether the type has init/fini
+ *   ts with fmt 0 / 107 'k' / 67 'C' / 115 's' / 24 TypeValFmt: the non-numeric branches of mpt_convert_string
  * src: b y n q i u x t (c for V/C), f d e with values as bit patterns (x...);
  * text: hex bytes ("-" empty, "NULL" null pointer), for float targets
  * hex/end/erange/bits = what libc answered (end pointer, errno == ERANGE, value) when the case was generated (re-checked here).
@@ -134,7 +140,8 @@ static int call_direct(int src, const void *from, uintptr_t dst, void *dest)
 	}
 }
 /* one-value iterator for mpt_iterator_consume */
-struct one_iter { MPT_INTERFACE(iterator) it; MPT_STRUCT(value) val; int left; };
+struct one_iter { MPT_INTERFACE(iterator) it; MPT_STRUCT(value) val; int left; int fail; int calls; };
+static int it_mode, it_calls;   /* mode of the I cases; advance calls of the last mpt_iterator_consume */
 static const MPT_STRUCT(value) *one_value(MPT_INTERFACE(iterator) *it)
 {
 	struct one_iter *o = (struct one_iter *) it;
@@ -143,6 +150,8 @@ static const MPT_STRUCT(value) *one_value(MPT_INTERFACE(iterator) *it)
 static int one_advance(MPT_INTERFACE(iterator) *it)
 {
 	struct one_iter *o = (struct one_iter *) it;
+	o->calls++;
+	if (o->fail) return MPT_ERROR(BadOperation);
 	if (!o->left) return MPT_ERROR(MissingData);
 	o->left = 0;
 	return 0;
@@ -161,11 +170,16 @@ static int call_kind(int kind, int src, const void *from, uintptr_t dst, void *d
 	}
 	else {
 		struct one_iter o;
+		int ret;
 		o.it._vptr = &one_ctl;
 		o.val._addr = from;
 		o.val._type = src;
-		o.left = 1;
-		return mpt_iterator_consume(&o.it, dst, dest);
+		o.left = (kind == 'I' && (it_mode & 1)) ? 0 : 1;
+		o.fail = (kind == 'I' && (it_mode & 2)) ? 1 : 0;
+		o.calls = 0;
+		ret = mpt_iterator_consume(&o.it, dst, dest);
+		it_calls = o.calls;
+		return ret;
 	}
 }
 
@@ -177,13 +191,17 @@ static void value_case(int kind, int ntok, char **tok)
 	int up = (kind == 'D');
 	size_t tsz = tgt_size(dst);
 	size_t dsz = tsz ? tsz : 16;
-	int i;
-	for (i = 5; i < ntok; i++) {
+	int i, first = 5;
+	if (kind == 'I') { it_mode = atoi(tok[5]); first = 6; }
+	for (i = first; i < ntok; i++) {
 		struct srcval s = mk_src(src, tok[i]);
 		uint8_t *dest = hd ? exact(dsz, 0xA5) : 0;
 		int ret = call_kind(kind, src, s.p, dst, dest);
+		int calls = it_calls;
 		if (ret < 0) {
-			vh_tok("R%d", ret);
+			/* the iterator cases also say whether a refused call left the destination alone */
+			if (kind == 'I' && dest && !all_is(dest, dsz, 0xA5)) vh_tok("R%d!written", ret);
+			else vh_tok("R%d", ret);
 		}
 		else if (!hd) {
 			vh_tok("%c%d", up ? 'Q' : 'q', ret);
@@ -213,6 +231,7 @@ static void value_case(int kind, int ntok, char **tok)
 				if (is_nan_bits(dst, dest)) vh_add("fnan"); else print_value(dst, dest);
 			}
 		}
+		if (kind == 'I') vh_add("@%d", calls);
 		free(dest);
 		free(s.p);
 	}
@@ -259,6 +278,22 @@ static void libc_oracle(int fmt, const char *s, long *oend, int *oovf, char *bit
 	*oend = end - s;
 }
 
+/* value of floating type fmt from its bit pattern "x<hex>" (as in the source values of the D cases) */
+static long double flt_of_bits(int fmt, const char *txt)
+{
+	char one[48];
+	struct srcval s;
+	long double r;
+	size_t n = strcspn(txt, ":");
+	if (n >= sizeof(one)) n = sizeof(one) - 1;
+	memcpy(one, txt, n); one[n] = 0;
+	s = mk_src(fmt, one);
+	if (fmt == 'f') { float v; memcpy(&v, s.p, 4); r = v; }
+	else if (fmt == 'd') { double v; memcpy(&v, s.p, 8); r = v; }
+	else { memcpy(&r, s.p, sizeof(r)); }
+	free(s.p);
+	return r;
+}
 typedef int (*text_fn)(void *ctx, const char *src, void *dest);
 struct tctx { int kind; long a; long base; int name; int hasrange; int64_t lo, hi; uint64_t ulo, uhi; long double flo, fhi; uintptr_t fmt; };
 
@@ -286,6 +321,52 @@ static int call_text(struct tctx *c, const char *src, void *dest)
 		return -100; }
 	  default: return -100;
 	}
+}
+/* the branches of mpt_convert_string that are no numbers: type 0 (format query), 'k' (keyword), char vector, 's' (string
+ * pointer), TypeValFmt.  Returns 0 for every other type. */
+static int string_special(struct tctx *c, const char *str, int hd)
+{
+	uintptr_t fmt = c->fmt;
+	uint8_t *dest;
+	int ret;
+	if (fmt != 0 && fmt != 'k' && fmt != MPT_type_toVector('c') && fmt != 's' && fmt != MPT_ENUM(TypeValFmt)) return 0;
+	if (fmt == MPT_ENUM(TypeValFmt)) {
+		/* mpt_valfmt_get is not modelled: the call is executed (faults show) and asking without destination has to give the
+		 * same answer as performing */
+		MPT_STRUCT(value_format) *vf = exact(sizeof(*vf), 0xA5);
+		ret = mpt_convert_string(str, fmt, vf);
+		if (!hd) {
+			int q = mpt_convert_string(str, fmt, 0);
+			if (q == ret) vh_tok("X="); else vh_tok("X!perform%d/query%d", ret, q);
+		}
+		else vh_tok("X");
+		free(vf);
+		return 1;
+	}
+	dest = hd ? exact(16, 0xA5) : 0;
+	ret = mpt_convert_string(str, fmt, dest);
+	if (ret < 0) vh_tok(dest && !all_is(dest, 16, 0xA5) ? "R%d!written" : "R%d", ret);
+	else if (!hd) vh_tok("Q%d", ret);
+	else if (all_is(dest, 16, 0xA5)) vh_tok(ret ? "U%d" : "E", ret);
+	else if (!all_is(dest + (fmt == MPT_type_toVector('c') ? 16 : 8), fmt == MPT_type_toVector('c') ? 0 : 8, 0xA5)) vh_tok("J%d:long", ret);
+	else if (fmt == 0) {
+		const uint8_t *f; memcpy(&f, dest, 8);
+		vh_tok("Z%d:%02x%02x", ret, f[0], f[0] ? f[1] : 0);
+	}
+	else if (fmt == 'k') {
+		const char *key; memcpy(&key, dest, 8);
+		if (str && key >= str && key <= str + strlen(str)) vh_tok("K%d:@%ld", ret, (long) (key - str)); else vh_tok("K%d:badptr", ret);
+	}
+	else if (fmt == 's') {
+		const char *p; memcpy(&p, dest, 8);
+		vh_tok(p == str ? "P%d" : "P%d:badptr", ret);
+	}
+	else {
+		struct iovec v; memcpy(&v, dest, sizeof(v));
+		vh_tok(v.iov_base == (void *) str ? "V%d:%zu" : "V%d:badbase:%zu", ret, v.iov_len);
+	}
+	free(dest);
+	return 1;
 }
 static int wrapper_id(const char *n, uintptr_t *as)
 {
@@ -324,7 +405,7 @@ static void text_case(int ntok, char **tok)
 		if (strcmp(tok[3], "-")) {
 			char *col = strchr(tok[3], ':');
 			c.hasrange = 1;
-			c.flo = strtold(tok[3], 0); c.fhi = strtold(col + 1, 0);
+			c.flo = flt_of_bits((int) c.fmt, tok[3]); c.fhi = flt_of_bits((int) c.fmt, col + 1);
 		}
 		hd = atoi(tok[4]); first = 5;
 	}
@@ -343,6 +424,7 @@ static void text_case(int ntok, char **tok)
 			libc_oracle((int) readas, it.str, &oe, &ov, ob);
 			if (oe != it.oend || ov != it.oovf || strcmp(ob, it.obits)) { vh_tok("ORACLE-MISMATCH:%ld/%d/%s", oe, ov, ob); free(dest); continue; }
 		}
+		if (c.kind == 's' && string_special(&c, it.str, hd)) { free(dest); free(it.str); continue; }
 		ret = call_text(&c, it.str, dest);
 		if (ret < 0) vh_tok("R%d", ret);
 		else if (ret == 0) {
@@ -370,6 +452,128 @@ static void text_case(int ntok, char **tok)
 	}
 }
 
+
+/* ---- mpt_value_convert on sources that are no numbers (W cases) ---- */
+#include "meta.h"
+/* stub convertable / metatype: answers a request for 'i' with 77 and refuses everything else */
+struct stub_meta { MPT_INTERFACE(metatype) mt; int convs, addrefs, unrefs; };
+static int stub_convert(MPT_INTERFACE(convertable) *c, MPT_TYPE(type) t, void *d)
+{
+	struct stub_meta *m = (struct stub_meta *) c;
+	m->convs++;
+	if (t == 'i') { if (d) { int32_t v = 77; memcpy(d, &v, 4); } return 'i'; }
+	return MPT_ERROR(BadType);
+}
+static void stub_unref(MPT_INTERFACE(metatype) *mt) { ((struct stub_meta *) mt)->unrefs++; }
+static uintptr_t stub_addref(MPT_INTERFACE(metatype) *mt) { return ++((struct stub_meta *) mt)->addrefs; }
+static MPT_INTERFACE(metatype) *stub_clone(const MPT_INTERFACE(metatype) *mt) { (void) mt; return 0; }
+static const MPT_INTERFACE_VPTR(metatype) stub_ctl = { { stub_convert }, stub_unref, stub_addref, stub_clone };
+
+static void other_case(int ntok, char **tok)
+{
+	const char *kind = tok[2];
+	int hd = atoi(tok[3]);
+	int i;
+	for (i = 4; i < ntok; i++) {
+		uintptr_t dst = (uintptr_t) strtoull(tok[i], 0, 10);
+		/* source data in exact-size heap blocks */
+		struct stub_meta *obj = calloc(1, sizeof(*obj)), *old = calloc(1, sizeof(*old));
+		char *text = 0;           /* string data a result may point to */
+		void *data = 0;           /* the value's address */
+		size_t dlen = 0;
+		int isvec = 0, run, convs = 0, addrefs = 0, unrefs = 0;
+		uintptr_t stype = 0;
+		uint8_t *d[2] = { 0, 0 };
+		int ret[2] = { 0, 0 };
+		MPT_STRUCT(value) val;
+		obj->mt._vptr = &stub_ctl; old->mt._vptr = &stub_ctl;
+#define DATA(n) (dlen = (n), data = exact(dlen, 0))
+		if (!strcmp(kind, "s"))        { stype = 's'; text = strdup("hello"); DATA(8); memcpy(data, &text, 8); }
+		else if (!strcmp(kind, "s0"))  { stype = 's'; DATA(8); }
+		else if (!strcmp(kind, "C4") || !strcmp(kind, "C3") || !strcmp(kind, "C0")) {
+			struct iovec v;
+			stype = 'C'; isvec = 1;
+			text = malloc(4); memcpy(text, "abc", 4);
+			v.iov_base = kind[1] == '0' ? 0 : text; v.iov_len = kind[1] - '0';
+			DATA(sizeof(v)); memcpy(data, &v, sizeof(v));
+		}
+		else if (!strcmp(kind, "I3") || !strcmp(kind, "At")) {
+			struct iovec v; int32_t a[3] = { 1, 2, 3 };
+			stype = kind[0] == 'I' ? 'I' : '@'; isvec = 1;
+			text = malloc(12); memcpy(text, a, 12);
+			v.iov_base = text; v.iov_len = 12;
+			DATA(sizeof(v)); memcpy(data, &v, sizeof(v));
+		}
+		else if (!strcmp(kind, "a"))   { stype = 'a'; DATA(16); }
+		else if (!strcmp(kind, "z"))   { stype = 'z'; DATA(16); }
+		else if (!strcmp(kind, "l"))   { stype = 'l'; DATA(8); }
+		else if (!strcmp(kind, "k"))   { stype = 'k'; text = strdup("key"); DATA(8); memcpy(data, &text, 8); }
+		else if (!strcmp(kind, "vf"))  { MPT_STRUCT(value_format) f = MPT_VALFMT_INIT; stype = MPT_ENUM(TypeValFmt); f.width = 7; DATA(sizeof(f)); memcpy(data, &f, sizeof(f)); }
+		else if (!strcmp(kind, "tv"))  { stype = MPT_ENUM(TypeValue); DATA(sizeof(MPT_STRUCT(value))); }
+		else if (!strcmp(kind, "priv")){ stype = 0x12345; DATA(16); }
+		else if (!strcmp(kind, "t20")) { stype = 0x20; DATA(16); }
+		else if (!strcmp(kind, "it"))  { stype = MPT_ENUM(TypeIteratorPtr); DATA(8); memcpy(data, &obj, 8); }
+		else if (!strcmp(kind, "id"))  { stype = MPT_ENUM(TypeIdentifier); DATA(64); }
+		else if (!strcmp(kind, "cv"))  { stype = MPT_ENUM(TypeConvertablePtr); DATA(8); memcpy(data, &obj, 8); }
+		else if (!strcmp(kind, "cv0")) { stype = MPT_ENUM(TypeConvertablePtr); DATA(8); }
+		else if (!strcmp(kind, "cvn")) { stype = MPT_ENUM(TypeConvertablePtr); }
+		else if (!strcmp(kind, "mt"))  { stype = MPT_ENUM(TypeMetaPtr); DATA(8); memcpy(data, &obj, 8); }
+		else if (!strcmp(kind, "mt0")) { stype = MPT_ENUM(TypeMetaPtr); DATA(8); }
+		else if (!strcmp(kind, "mtn")) { stype = MPT_ENUM(TypeMetaPtr); }
+		else if (!strcmp(kind, "m7"))  { stype = MPT_ENUM(_TypeMetaPtrMax); DATA(8); memcpy(data, &obj, 8); }
+		else if (!strcmp(kind, "rf"))  { stype = MPT_ENUM(TypeMetaRef); DATA(8); memcpy(data, &obj, 8); }
+		else if (!strcmp(kind, "rf0")) { stype = MPT_ENUM(TypeMetaRef); DATA(8); }
+		else { vh_tok("?kind"); return; }
+#undef DATA
+		val._addr = data;
+		val._type = stype;
+		/* two runs with different fill patterns tell exactly which bytes were written */
+		for (run = 0; run < (hd ? 2 : 1); run++) {
+			if (hd) {
+				d[run] = exact(64, run ? 0x5A : 0xA5);
+				/* a metatype reference target holds a reference already */
+				if (dst == MPT_ENUM(TypeMetaRef)) memcpy(d[run], &old, 8);
+			}
+			ret[run] = mpt_value_convert(&val, dst, d[run]);
+			/* what the first run did to the stubs */
+			if (!run) { convs = obj->convs; addrefs = obj->addrefs; unrefs = old->unrefs; }
+		}
+		if (ret[0] < 0) {
+			if (hd && !all_is(d[0], 64, 0xA5) && dst != MPT_ENUM(TypeMetaRef)) vh_tok("R%d!written", ret[0]);
+			else vh_tok("R%d", ret[0]);
+		}
+		else if (!hd) vh_tok("q%d", ret[0]);
+		else if (ret[1] != ret[0]) vh_tok("?unstable%d/%d", ret[0], ret[1]);
+		else if (dst == MPT_ENUM(TypeMetaRef)) {
+			void *now; memcpy(&now, d[0], 8);
+			vh_tok("r%d:a%du%d%s", ret[0], addrefs, unrefs, now == (data ? *(void **) data : 0) ? "" : ":badptr");
+			if (!all_is(d[0] + 8, 56, 0xA5)) vh_add(":long");
+		}
+		else {
+			size_t n = 0, j;
+			int contiguous = 1;
+			for (j = 0; j < 64; j++) {
+				int mod = d[0][j] != 0xA5 || d[1][j] != 0x5A;
+				if (mod) { if (j != n) contiguous = 0; n = j + 1; }
+			}
+			if (!n) vh_tok("u%d", ret[0]);
+			else if (!contiguous) vh_tok("j%d:holes%zu", ret[0], n);
+			else {
+				struct iovec v; void *ptr; int32_t i32;
+				memcpy(&v, d[0], sizeof(v)); memcpy(&ptr, d[0], 8); memcpy(&i32, d[0], 4);
+				if (n == 16 && data && v.iov_base == data) vh_tok("v%d:%zu", ret[0], v.iov_len);
+				else if (n == 8 && isvec && text && ptr == text) vh_tok("s%d", ret[0]);
+				else if (data && n <= dlen && !memcmp(d[0], data, n)) vh_tok("m%d:%zu", ret[0], n);
+				else if (n == 4 && i32 == 77) vh_tok("c%d:77", ret[0]);
+				else vh_tok("j%d:%zu", ret[0], n);
+			}
+		}
+		/* how often the stub was asked */
+		if (convs) vh_add("/c%d", convs);
+		free(d[0]); free(d[1]); free(data); free(text); free(obj); free(old);
+	}
+}
+
 static const char *conv_name(MPT_TYPE(data_converter) f)
 {
 	if (!f) return "none";
@@ -393,6 +597,19 @@ static void run_case(int ntok, char **tok)
 	if (ntok < 2) return;
 	if (!strcmp(tok[1], "D") || !strcmp(tok[1], "V") || !strcmp(tok[1], "C")) {
 		if (ntok >= 5) value_case(tok[1][0], ntok, tok);
+	}
+	else if (!strcmp(tok[1], "I")) {
+		if (ntok >= 6) value_case('I', ntok, tok);
+	}
+	else if (!strcmp(tok[1], "W")) {
+		if (ntok >= 4) other_case(ntok, tok);
+	}
+	else if (!strcmp(tok[1], "T")) {
+		/* the traits table mpt_value_convert consults */
+		for (i = 2; i < ntok; i++) {
+			const MPT_STRUCT(type_traits) *t = mpt_type_traits((uintptr_t) strtoull(tok[i], 0, 10));
+			if (!t) vh_tok("-"); else vh_tok("%c%zu", (t->init || t->fini) ? 'm' : 'n', t->size);
+		}
 	}
 	else if (!strcmp(tok[1], "P")) {
 		for (i = 2; i < ntok; i++) vh_tok("%s", conv_name(mpt_data_converter((uintptr_t) strtoull(tok[i], 0, 10))));
